@@ -94,6 +94,7 @@ def scenario(seed):
         "name": rng.randrange(len(NAME_CLASSES)),
         "preexisting": rng.random() < 0.6,
         "big": rng.random() < 0.15,
+        "bufsize": rng.choice([0, 0, 64, 8192, 8192]),  # writer buffer of the simulated file layer
     }
 
 
@@ -177,7 +178,7 @@ def run_once(d, sc, plan, exdev, ref):
         def acceptable(data):
             return data == old or (data is not None and same_content(sc["fmt"], data, ref))
 
-        sim = iosim.FsSim(sb.tmp, plan=plan, exdev=exdev, observe=observe_dest)
+        sim = iosim.FsSim(sb.tmp, plan=plan, exdev=exdev, observe=observe_dest, bufsize=sc.get("bufsize", 0))
         outcome = "returned"
         err = None
         seams.reseed_uuid(sc["seed"])
@@ -254,7 +255,7 @@ def run_once(d, sc, plan, exdev, ref):
         # bounded liveness: once faults stop, the next serialize to the same path succeeds
         retry = None
         if plan:
-            sim2 = iosim.FsSim(sb.tmp, plan={}, exdev=exdev)
+            sim2 = iosim.FsSim(sb.tmp, plan={}, exdev=exdev, bufsize=sc.get("bufsize", 0))
             seams.reseed_uuid(sc["seed"])
             with sim2:
                 try:
